@@ -1107,10 +1107,7 @@ def compare_components(rec, rd, spec, text, b, bs, bn, ad, k, W):
             m = c.getDimension("mult")
             if lat_n and m != lat_n:
                 X("component/pin-lattice-mult", "%s multiplicity %r, its lattice IDs %r occupy %d positions" % (c.name, m, lat_ids, lat_n))
-            try:
-                locs = sorted(tuple(int(x) for x in l.getCompleteIndices())[:2] for l in c.spatialLocator) if lat_n else []
-            except TypeError:
-                locs = None
+            locs = locator_cells(c.spatialLocator) if lat_n else []
             if lat_n and locs != cells:
                 X("component/pin-lattice-locations", "%s sits at %r, the lattice map puts its IDs at %r" % (c.name, locs, cells))
         # ---- flags
@@ -1127,6 +1124,17 @@ def compare_components(rec, rd, spec, text, b, bs, bn, ad, k, W):
         if c.p.flags != ef:
             X("component/flags/%s" % ("explicit" if cs_.get("flags") else "from-name"), "%s flags %r, expected %r" % (c.name, c.p.flags, ef))
         compare_composition(rec, rd, c, cs_, comp_ref, bool(ef & Flags.DEPLETABLE), X)
+
+
+def locator_cells(loc):
+    """Cells of a component's locator in its block grid (None if the component has no grid position at all)."""
+    from armi.reactor import grids
+
+    if isinstance(loc, grids.MultiIndexLocation):
+        return sorted(tuple(int(x) for x in l.getCompleteIndices())[:2] for l in loc)
+    if isinstance(loc, grids.IndexLocation):
+        return [tuple(int(x) for x in loc.getCompleteIndices())[:2]]
+    return None
 
 
 def bs_comp(bs, name):
@@ -1696,6 +1704,8 @@ def plant(rng, kind):
         an, a = rng.choice(designs)
         used_blocks = [bn for _, ad in designs for bn in ad["blocks"] if any(v == ad["specifier"] for v in g["contents"].values())]
         if kind.startswith("unknown-specifier"):
+            if kind.endswith("text-map") and g["mapkind"] == "hexcu-third":
+                continue  # no text-map format exists for that geometry
             g["form"] = "text" if kind.endswith("text-map") else "contents"
             cell = rng.choice(sorted(g["contents"]))
             g["contents"][cell] = "QQ"
@@ -1793,6 +1803,8 @@ def plant(rng, kind):
             names = list(materials.resolveMaterialClassByName(c["material"])().massFrac)
             drop = rng.choice(names)
             finish.pop(drop, None)
+            if not _flags_insufficient(spec, names):
+                continue  # still covered (e.g. MN55 through the expansion of MN): not an inconsistency
             return spec, render(spec)
         if kind == "missing-nuclide-flag/custom-isotopics":
             used = [c for bn in used_blocks for c in spec["blocks"][bn]["components"] if c.get("isotopics")]
@@ -1801,6 +1813,8 @@ def plant(rng, kind):
             iso = spec["custom isotopics"][rng.choice(used)["isotopics"]]
             drop = rng.choice([k_ for k_ in iso if k_ not in ("input format", "density")])
             spec["nuclide flags"].pop(drop, None)
+            if not _flags_insufficient(spec, [k_ for k_ in iso if k_ not in ("input format", "density")]):
+                continue
             return spec, render(spec)
         if kind == "unknown/material-modification-key":
             if not any(v == a["specifier"] for v in g["contents"].values()):
@@ -1867,6 +1881,16 @@ def plant(rng, kind):
                 iso["density"] = 5.0
                 return spec, render(spec)
     return None
+
+
+def _flags_insufficient(spec, names):
+    """True if some nuclide of a composition holding `names` is not among the nuclides the (remaining) flags declare."""
+    rd = Reading(spec)
+    allowed = set()
+    for n in spec["nuclide flags"]:
+        allowed.update(rd.expand_name(n))
+    needed = rd.expand({n: 1.0 for n in names})
+    return any(n not in allowed for n in needed)
 
 
 def judge_invalid(rec, rng, i, kind):
